@@ -36,24 +36,29 @@ structure Dis where
   useSiteContravariance : Bool
 deriving Repr, DecidableEq
 
-/-- `_get_type_arg_variance`: the candidate list the result is drawn from.
-    `vc = none` is `variance_choices is None`; `later` are the answers
-    `tpa.has_bound_of(t_param)` for `tpa in other_type_params`. -/
-def argVariance (dis : Dis) (tparam : Ty) (vc : Option VChoices) (later : List Bool) : List Nat :=
-  let inBound := later.any id
-  match vc with
+/-- the decision table of `_get_type_arg_variance` over the facts it looks at: the declared
+    variance `dv` of the parameter, `ch = none` for `variance_choices is None` and
+    `some (can_variant, can_contravariant)` for the looked-up entry, `inBound` for
+    `any(tpa.has_bound_of(t_param) for tpa in other_type_params)` -/
+def argVarianceCore (dis : Dis) (dv : Nat) (ch : Option (Bool × Bool)) (inBound : Bool) : List Nat :=
+  match ch with
   | none => [0]
-  | some m =>
+  | some ch =>
     if inBound then [0]
     else
-      let ch := m.get tparam
       let canVariant := if dis.useSiteVariance then false else ch.1
       let canContra := if dis.useSiteVariance then false else ch.2
       let covariance : List Nat := if canVariant then [1] else []
       let contravariance : List Nat := if canContra && !dis.useSiteContravariance then [2] else []
-      if variance tparam == 0 then [0] ++ covariance ++ contravariance
-      else if variance tparam == 1 then [0] ++ covariance
+      if dv == 0 then [0] ++ covariance ++ contravariance
+      else if dv == 1 then [0] ++ covariance
       else [0] ++ contravariance
+
+/-- `_get_type_arg_variance`: the candidate list the result is drawn from.
+    `vc = none` is `variance_choices is None`; `later` are the answers
+    `tpa.has_bound_of(t_param)` for `tpa in other_type_params`. -/
+def argVariance (dis : Dis) (tparam : Ty) (vc : Option VChoices) (later : List Bool) : List Nat :=
+  argVarianceCore dis (variance tparam) (vc.map fun m => m.get tparam) (later.any id)
 
 end Inst
 end Heph
